@@ -654,6 +654,8 @@ func checkC07(c *Ctx) string {
 	}
 	// 4. bulk builders
 	checkBuilderAddUsed(c, "C07.4 K8 bulk index builders refuse duplicates")
+	// 5. the checker's write set must be able to hold the empty key
+	checkBoundedSlotReads(c, "C07.5 K4c the checker's key sets compare a slot only inside their size (empty keys are recorded)")
 	return "Static shape of key enforcement: in every inserting method of UpdateTran the per-index loop runs dupOutputBlock (guarded only by 'key changed' in update, unconditional in Output except the " +
 		"empty-key branch, which refuses a second row and registers a whole-index read) before the checker call; dupOutputBlock looks the key up whenever needsDupCheck holds, panics on a hit and registers the point read on a miss; " +
 		"needsDupCheck is evaluated over its whole finite input domain against Primary || (unique && !ContainsKey && !allEmpty); Builder.Add's verdict is used. The concurrent part is C01 (write vs. registered read)."
